@@ -162,6 +162,21 @@ func runOps(s *subject, ops string) []string {
 			out[i] = obsL(w) + "/" + obsM(w, true)
 		case 'D':
 			out[i] = obsD(v, decode)
+		case 'R', 'Z':
+			// a Read into a buffer that is too short (half the size) or empty: what it returns is its own
+			// business, what the later operations return is not
+			func() {
+				defer func() {
+					if p := recover(); p != nil {
+						out[i] = fmt.Sprintf("panic: %v", p)
+					}
+				}()
+				size := 0
+				if op == 'R' {
+					size = int(v.Len()) / 2
+				}
+				out[i] = v.(interface{ shortRead(int) string }).shortRead(size)
+			}()
 		}
 	}
 	return out
@@ -176,6 +191,11 @@ func c13Subject(r *ev.Run, s *subject, depth int) int64 {
 	alpha := "LMWD"
 	if s.viaStream {
 		alpha = "LMWDS"
+	}
+	if v, _, _ := s.fresh(); v != nil {
+		if _, ok := v.(interface{ shortRead(int) string }); ok {
+			alpha = "LMDRZ"
+		}
 	}
 	// V is an observation only (it cannot disturb anything): it is looked at once at the end of
 	// every sequence instead of being a letter of the alphabet
@@ -211,7 +231,7 @@ func c13Subject(r *ev.Run, s *subject, depth int) int64 {
 			}
 			for i, op := range prefix {
 				if obs[i] != ref[op] {
-					what := map[rune]string{'L': "reported size", 'M': "encoding", 'W': "size/encoding through the enclosing wrapper", 'D': "decoded value", 'S': "byte string the stream writes for it"}[op]
+					what := map[rune]string{'L': "reported size", 'M': "encoding", 'W': "size/encoding through the enclosing wrapper", 'D': "decoded value", 'S': "byte string the stream writes for it", 'R': "result of a Read into a buffer of half the size", 'Z': "result of a Read into an empty buffer"}[op]
 					r.Violation(fmt.Sprintf("history-dependent-%c:%s", op, s.kind),
 						fmt.Sprintf("after the operations %s on %s the %s is %s; on a fresh instance it is %s", prefix[:i], s.name, what, clip(obs[i]), clip(ref[op])),
 						map[string]any{"ops": prefix, "subject": s.rep})
